@@ -186,7 +186,26 @@ ExportTerms == (Part = "terms" /\ Export) =>
                       areageneral |-> AreaGeneral, areaminus1 |-> AreaMinus1, fir |-> FirTerm,
                       edgemid |-> EdgeMid, edgefirst |-> EdgeFirst, edgelast |-> EdgeLast, overlap |-> OverlapT]>>)
 
+\* ---- fixtime: outlier times (growth; the documented heuristic "times more than 3 sigma away from the mean are deleted") -------------
+\* a record of n samples one unit apart with ONE time stamp displaced to `at` (a corrupted clock word).  The rule in integers:
+\* |t_i - mean| > 3 std (ddof 1)   <=>   (n t_i - S)^2 (n - 1) > 9 n (n Q - S^2)   with S = sum t, Q = sum t^2
+OutCases == {<<n, pos, at>> : n \in 11..14, pos \in {1, 5, 11}, at \in {-300, -40, -20, 8, 30, 45, 60, 400}}
+OutTimesOf(c) == [i \in 1..c[1] |-> IF i = c[2] THEN c[3] ELSE i - 1]
+RECURSIVE SumTo(_, _)
+SumTo(f, i) == IF i = 0 THEN 0 ELSE f[i] + SumTo(f, i - 1)
+IsOutlier(t, i) == LET n == Len(t) S == SumTo(t, n) Q == SumTo([k \in 1..n |-> t[k] * t[k]], n) IN
+                   (n * t[i] - S) * (n * t[i] - S) * (n - 1) > 9 * n * (n * Q - S * S)
+Outliers(t) == {i \in 1..Len(t) : IsOutlier(t, i)}
+\* at most the displaced sample is an outlier (the others are within one record length of the mean), a far displacement always is, and
+\* a displacement that stays inside the record never is
+OutLaws == Part = "outtimes" =>
+   LET t == OutTimesOf(q) o == Outliers(t) IN
+   /\ o \subseteq {q[2]}
+   /\ (q[3] >= 400 \/ q[3] <= -300) => o = {q[2]}
+   /\ (q[3] \in 0..(q[1] - 1)) => o = {}
+ExportOut == (Part = "outtimes" /\ Export) => PrintT(<<"OUTT", q[1], q[2], q[3], OutTimesOf(q), Outliers(OutTimesOf(q))>>)
+
 Init == q \in CASE Part = "rescale" -> RescaleCases [] Part = "resample" -> ResampleCases
-                [] Part = "fixtime" -> FixCases [] Part = "terms" -> {0}
+                [] Part = "fixtime" -> FixCases [] Part = "outtimes" -> OutCases [] Part = "terms" -> {0}
 Next == UNCHANGED q
 =============================================================================
